@@ -124,6 +124,22 @@ func structuralCandidates(s *spec.Spec) []*spec.Spec {
 				out = append(out, c)
 			}
 		}
+		for i := range s.Tasks {
+			for j, st := range s.Tasks[i].Ops {
+				if st.Flood == nil || st.Flood.Count <= 1 {
+					continue
+				}
+				// a smaller flood: half, then nine tenths (a capacity threshold keeps the count just above it)
+				for _, n := range []int{st.Flood.Count / 2, st.Flood.Count * 9 / 10} {
+					if n >= 1 && n < st.Flood.Count {
+						c := clone(s)
+						c.Tasks[i].Ops[j].Flood.Count = n
+						c.Decisions = nil
+						out = append(out, c)
+					}
+				}
+			}
+		}
 		if s.Config.Faults.Stall {
 			c := clone(s)
 			c.Config.Faults.Stall = false
@@ -284,6 +300,16 @@ func structuralCandidates(s *spec.Spec) []*spec.Spec {
 				c := clone(s)
 				c.History[i].Rename = 0
 				out = append(out, c)
+			}
+			if fl := s.History[i].Flood; fl != nil && fl.Count > 1 {
+				// a smaller flood: half, then nine tenths (a capacity threshold keeps the count just above it)
+				for _, n := range []int{fl.Count / 2, fl.Count * 9 / 10} {
+					if n >= 1 && n < fl.Count {
+						c := clone(s)
+						c.History[i].Flood.Count = n
+						out = append(out, c)
+					}
+				}
 			}
 		}
 	}
